@@ -281,7 +281,8 @@ Section Algebra.
     end.
 
   (* ---- RandomVariables.join ---------------------------------------------------------------------
-     fill != 0 : every zero entry of the joined matrix becomes [fill];
+     fill != 0 : every zero entry OFF the diagonal of the joined matrix becomes [fill]
+                 ([if M[row, col] == 0 and row != col], since fix a9c876f);
      elif name_template: every zero entry below the diagonal and its mirror become the symbol
        name_template.format(param_names[col], param_names[row])  =  [mk_cov pn[col] pn[row]].
      The loops are over product(range(rows), range(cols)); an assignment at (row, col), row > col,
@@ -289,7 +290,8 @@ Section Algebra.
      the result is the pointwise table below. *)
   Variable mk_cov : id -> id -> E.
   Definition fill_matrix (fill : E) (M : matrix) : matrix :=
-    mtab (mrows M) (mcols M) (fun i j => let e := mget M i j in if is_zero e then fill else e).
+    mtab (mrows M) (mcols M) (fun i j => let e := mget M i j in
+                                         if is_zero e && negb (Nat.eqb i j) then fill else e).
   Definition tmpl_entry (pn : list id) (M : matrix) (i j : nat) : E :=
     let lo := Nat.min i j in let hi := Nat.max i j in
     if (lo <? hi) && is_zero (mget M hi lo)
@@ -339,15 +341,16 @@ Section Algebra.
         end
     end.
 
-  (* ---- __add__ ------------------------------------------------------------------------------- *)
+  (* ---- __add__ / __radd__ : the level check for a single distribution, then
+     self.replace(dists=...) = RandomVariables.create, which refuses repeated names (fix 1b723c6) ---- *)
+  Definition create (ds : coll) : res coll := if nodupb (names ds) then Ok ds else Err ValueError.
+  Definition level_known (d : dist) : bool := memp (dlevel d) eta_levels || memp (dlevel d) epsilon_levels.
   Definition add_dist (r : coll) (d : dist) : res coll :=
-    if negb (memp (dlevel d) eta_levels) && negb (memp (dlevel d) epsilon_levels)
-    then Err ValueError else Ok (r ++ [d]).
-  Definition add_coll (r r2 : coll) : coll := r ++ r2.      (* also rvs + [dists] (no level check) *)
+    if negb (level_known d) then Err ValueError else create (r ++ [d]).
+  Definition add_coll (r r2 : coll) : res coll := create (r ++ r2).      (* also rvs + [dists] *)
   (* dist + rvs  (__radd__) *)
   Definition radd_dist (r : coll) (d : dist) : res coll :=
-    if negb (memp (dlevel d) eta_levels) && negb (memp (dlevel d) epsilon_levels)
-    then Err ValueError else Ok (d :: r).
+    if negb (level_known d) then Err ValueError else create (d :: r).
 
   (* ---- etas / epsilons / iiv / iov ---------------------------------------------------------- *)
   Definition with_levels (ls : list id) (r : coll) : coll := filter (fun d => memp (dlevel d) ls) r.
